@@ -912,6 +912,22 @@ class Evaluator:
             _havoc([st], env, 'loop over symbolic iterable')
             return True
         if isinstance(st, ast.While):
+            # a loop whose test folds to a constant each time round (partial evaluation on constants) is run; a
+            # symbolic test havocs the variables the loop assigns
+            if not _has_loop_jump(st.body) and not st.orelse:
+                snapshot = _copy_env(env)
+                for _ in range(200):
+                    c = truthy(self.expr(st.test, env, fr))
+                    if not (isinstance(c, Const) and isinstance(c.v, bool)):
+                        break
+                    if not c.v:
+                        return True
+                    nret = len(fr.returns)
+                    if not self.block(st.body, env, pc, fr):
+                        return False
+                    if len(fr.returns) > nret:
+                        break          # a conditional return inside the body: give up on the concrete run
+                env.clear(); env.update(snapshot)
             if any(isinstance(x, (ast.Yield, ast.YieldFrom)) for x in ast.walk(st)):
                 fr.gen_unknown = True
             _havoc([st], env, 'while loop')
